@@ -1,2 +1,90 @@
-From Coq Require Import ZArith List.
-From FV Require Import C16.Model C16.Proofs.
+(* C16 — non-vacuity examples for the hypotheses of Props.v, and recorded witnesses *)
+From Coq Require Import ZArith List Bool Lia.
+From FV Require Import C16.Model C16.Proofs C16.Proofs2.
+Import ListNotations.
+Open Scope Z_scope.
+
+Ltac wf := cbn; repeat (split || constructor); try lia.
+
+(* the input of finding "cov2-get-u16-add-overflow" (fixed in /repo 7d54c01): glyphs 1..10 and 65535 *)
+Definition G_hi : list Z := [1; 2; 3; 4; 5; 6; 7; 8; 9; 10; 65535].
+Example G_hi_u16 : Forall u16 G_hi.
+Proof. unfold G_hi, u16. repeat constructor; lia. Qed.
+Example cov_hi_format2 : cov_build G_hi = Cov2 [(1, 10, 0); (65535, 65535, 10)].
+Proof. reflexivity. Qed.
+Example cov_hi_get_strict : cov_get true (cov_build G_hi) 65535 = GSome 10 /\ cov_get true (cov_build G_hi) 11 = GNone.
+Proof. split; reflexivity. Qed.
+(* the expression before the fix, (start_coverage_index + gid) - start_glyph_id in u16, overflow-checks profile *)
+Definition cov2_get_old (rs : list rrec) (g : Z) : gres :=
+  match bsearch_by (fun i => range_cmp g (znth rs i (0, 0, 0))) (zlen rs) with
+  | BOk i => let '(s, _, ci) := znth rs i (0, 0, 0) in if 65535 <? ci + g then GPanic else GSome (ci + g - s)
+  | BErr _ => GNone
+  end.
+Example coverage_get_spec_old_expression_refuted :
+  exists G g, Forall u16 G /\ match cov_build G with Cov2 rs => cov2_get_old rs g | Cov1 _ => GNone end
+                               <> gres_of (index_of g (sort_dedup G)).
+Proof. exists G_hi, 65535. split; [exact G_hi_u16 | vm_compute; discriminate]. Qed.
+
+(* class definitions: both formats, duplicates, zero entries *)
+Example cd_f1 : cd_build [(3, 4); (4, 6); (5, 1); (9, 5); (10, 2); (11, 3)] = Cd1 3 [4; 6; 1; 0; 0; 0; 5; 2; 3].
+Proof. reflexivity. Qed.
+Example cd_f2 : cd_build [(1, 1); (2, 1); (3, 1); (7, 0); (9, 2)] = Cd2 [(1, 3, 1); (9, 9, 2)].
+Proof. reflexivity. Qed.
+Example cd_nodup_nonvacuous : NoDup (map fst [(1, 1); (2, 1); (3, 1); (7, 0); (9, 2)]) /\
+  cd_get (cd_build [(1, 1); (2, 1); (3, 1); (7, 0); (9, 2)]) 9 = 2.
+Proof. split; [cbn; repeat constructor; cbn; intuition lia | reflexivity]. Qed.
+(* a zero entry after a non-zero one is dropped before insertion: the glyph keeps the earlier class *)
+Example cd_zero_after_nonzero : cd_get (cd_build [(7, 2); (7, 0)]) 7 = 2 /\ cd_spec [(7, 2); (7, 0)] 7 = 2.
+Proof. split; reflexivity. Qed.
+
+(* split_coverage / split_pp1: a format-2 coverage split inside a range *)
+Definition t1 : pp1 Z :=
+  {| pp1_cov := Cov2 [(10, 14, 0); (20, 21, 5)];
+     pp1_sets := [[(1, 100)]; [(1, 101)]; [(2, 102)]; [(1, 103); (2, 104)]; [(1, 105)]; [(9, 106)]; [(9, 107)]] |}.
+Example t1_wf : cov_wf (pp1_cov t1).
+Proof. unfold t1. wf. Qed.
+Example t1_chain : chain 0 [3; 6; 7] (zlen (pp1_sets t1)).
+Proof. cbn. lia. Qed.
+Example t1_split : option_map (map (fun p : pp1 Z => pp1_cov p)) (split_pp1 [3; 6; 7] t1)
+  = Some [Cov2 [(10, 12, 0)]; Cov2 [(13, 14, 0); (20, 20, 2)]; Cov2 [(21, 21, 0)]].
+Proof. reflexivity. Qed.
+Example t1_lookup : match split_pp1 [3; 6; 7] t1 with
+                    | Some ps => first_some (fun p => pp1_lookup p 13 2) ps = Some 104 /\ pp1_lookup t1 13 2 = Some 104
+                    | None => False end.
+Proof. vm_compute. split; reflexivity. Qed.
+(* panics modelled in split_coverage: `end - 1` with end = 0, and the u16 subtraction on an empty window *)
+Example split_cov_panics : split_coverage (Cov2 [(1, 10, 0)]) 0 0 = None /\ split_coverage (Cov2 [(1, 10, 0)]) 5 5 = None
+  /\ split_coverage (Cov1 [1; 2]) 0 3 = None.
+Proof. repeat split; reflexivity. Qed.
+
+(* split_pp2: classes re-based *)
+Definition t2 : pp2 Z :=
+  {| pp2_cov := Cov1 [5; 6; 7; 8; 9]; pp2_cd1 := cd_build [(6, 1); (7, 2); (8, 2); (9, 3)]; pp2_cd2 := cd_build [(1, 1)];
+     pp2_matrix := [[10; 11]; [20; 21]; [30; 31]; [40; 41]] |}.
+Example t2_hyps : cov_wf (pp2_cov t2) /\ Forall u16 (cov_iter (pp2_cov t2)) /\ chain 0 [2; 4] (zlen (pp2_matrix t2)).
+Proof. unfold t2, u16. wf. Qed.
+Example t2_split : match split_pp2 [2; 4] t2 with
+                   | Some [p; q] => pp2_cov q = Cov1 [7; 8; 9] /\ pp2_cd1 q = Cd1 9 [1] /\
+                                    pp2_lookup q 9 1 = Some 41 /\ pp2_lookup p 9 1 = None /\ pp2_lookup t2 9 1 = Some 41
+                   | _ => False end.
+Proof. vm_compute. repeat split; reflexivity. Qed.
+
+(* split_m2b: marks of interleaved classes, class re-basing and column slicing *)
+Definition t3 : m2b Z :=
+  {| m2b_mcov := Cov1 [50; 51; 52; 53]; m2b_bcov := Cov1 [70; 71]; m2b_nclass := 3;
+     m2b_marks := [(0, 500); (2, 510); (1, 520); (2, 530)];
+     m2b_bases := [[Some 1; None; Some 3]; [Some 4; Some 5; Some 6]] |}.
+Example t3_hyps : m2b_cov_ok t3 /\ Forall (fun row => zlen row = m2b_nclass t3) (m2b_bases t3) /\ chain 0 [1; 3] (m2b_nclass t3).
+Proof. unfold t3, m2b_cov_ok, u16. wf. Qed.
+Example t3_split : match split_m2b [1; 3] t3 with
+                   | Some [p; q] => m2b_mcov q = Cov1 [51; 52; 53] /\ m2b_marks q = [(1, 510); (0, 520); (1, 530)] /\
+                                    m2b_lookup q 53 70 = Some (530, 3) /\ m2b_lookup q 52 70 = None /\
+                                    m2b_lookup t3 53 70 = Some (530, 3) /\ m2b_lookup p 50 71 = Some (500, 4)
+                   | _ => False end.
+Proof. vm_compute. repeat split; reflexivity. Qed.
+
+(* promotion *)
+Example promote_example :
+  let l : lookup Z Z := {| lk_type := 2; lk_flags := 16; lk_mfs := Some 3; lk_subs := [SPP1 t1] |} in
+  lk_type (promote l) = 9 /\ lk_mfs (promote l) = Some 3 /\ lookup_apply (promote l) 13 2 = Some (inl 104).
+Proof. vm_compute. repeat split; reflexivity. Qed.
